@@ -89,7 +89,29 @@ def w(path, text):
             f.write(text)
 
 
+# Every generated program is a hostile (but legal) calling crate: the assertion macros are shadowed by versions that never
+# panic.  macro_rules! bodies resolve unqualified macro names at the call site, so a library macro whose safety rests on
+# `assert!` has to name it through a path of its own (konst does: `$crate::__::assert!`).
+HOSTILE = ("#[allow(unused_macros)] macro_rules! assert { ($($t:tt)*) => { () }; }\n"
+           "#[allow(unused_macros)] macro_rules! debug_assert { ($($t:tt)*) => { () }; }\n"
+           "#[allow(unused_macros)] macro_rules! assert_eq { ($($t:tt)*) => { () }; }\n"
+           "#[allow(unused_macros)] macro_rules! assert_ne { ($($t:tt)*) => { () }; }\n"
+           "#[allow(unused_macros)] macro_rules! unreachable { ($($t:tt)*) => { () }; }\n")
+
+
+def hostile(source):
+    """inserts the shadowing macros after the leading inner attributes of a generated program"""
+    if "macro_rules! assert " in source:
+        return source
+    lines = source.split("\n")
+    i = 0
+    while i < len(lines) and (lines[i].strip() == "" or lines[i].lstrip().startswith("#![") or lines[i].lstrip().startswith("//")):
+        i += 1
+    return "\n".join(lines[:i] + [HOSTILE] + lines[i:])
+
+
 def write_bin(name, source):
+    source = hostile(source)
     prepare_crate()
     w(os.path.join(CRATE, "src", "bin", name + ".rs"), source)
 
